@@ -178,7 +178,7 @@ func runC04(r *Run) {
 			k = f.Start + t.Draw(f.HdrEnd-f.Start+3)
 		case 2: // last bytes of a frame
 			f := frames[t.Draw(len(frames))]
-			k = f.End - t.Draw(9)
+			k = f.End - []int{0, 0, 0, 1, 2, 3, 5, 8}[t.Draw(8)]
 		default: // multiples of the bufio size
 			k = 4096 * (1 + t.Draw(len(stream)/4096+1))
 			k += t.Draw(3) - 1
@@ -232,6 +232,9 @@ func runC04(r *Run) {
 	}
 	in.OpBudget = 3000
 	r.S.MaxSteps = 30000
+	// the Read that delivers the last bytes before the cut may report the end of
+	// the stream (or the reset) in the same call, as io.Reader allows
+	in.ErrWithData = t.Pct(35)
 
 	neg := rc.Neg
 	ex := Predict(stream[:k], rc.PeerIsCli, neg.Deflate, rc.PeerTake)
@@ -294,7 +297,11 @@ func runC04(r *Run) {
 		defer rc.C.CloseNow()
 		switch {
 		case api <= 5:
-			buf := make([]byte, c04Bufs[api])
+			bs := c04Bufs[api]
+			if large && api == 5 && k%2 == 0 {
+				bs = 32768 // (reads of a bufio buffer or more go to the transport directly)
+			}
+			buf := make([]byte, bs)
 			for {
 				_, rd, e := rc.C.Reader(ctx)
 				if e != nil {
